@@ -295,6 +295,8 @@ CheckMulti(t) ==
 
 Check(t) ==
     IF ~Has(t, "k") THEN "trace: missing kind"
+    ELSE IF t.k = "raised"
+    THEN "C20.raises: optimize_prec_assignment raises on a supported per-channel MPS / NE16 model: " \o t.msg
     ELSE IF t.k = "multi" THEN CheckMulti(t)
     ELSE IF t.k = "mlife" THEN CheckMLife(t)
     ELSE IF t.k = "fn" THEN CheckFn(t)
